@@ -92,7 +92,9 @@ def impl_run(events, ncalls, rng):
             out.append("-")
         else:
             out.append("l" + bytes(r).hex())
-    return " ".join(out) + " | buf=" + b"".join(d._read_buffer).hex()
+    buf = d._read_buffer
+    pending = bytes(buf) if isinstance(buf, (bytes, bytearray)) else b"".join(bytes(c) for c in buf)
+    return " ".join(out) + " | buf=" + pending.hex()
 
 
 def model_line(events, ncalls):
